@@ -265,11 +265,11 @@ Proof.
       change (is_x ch_0) with false. change (is_o ch_0) with false. change (is_b ch_0) with false. cbn iota.
       assert (ALLZ : Forall (fun c => c = ch_0) (ch_0 :: ch_0 :: zs)) by (repeat constructor; assumption).
       rewrite py_int_pow2_digits; try reflexivity; try lia; try congruence.
-      + rewrite !eval_digits_fold, !fold_zeros by assumption.
-        rewrite strip_us_cons_keep by assumption. rewrite SU, fold_zeros by assumption. reflexivity.
-      + eapply Forall_impl; [|exact ALLZ]. intros c ->. unfold dig_ok, digit_val, ch_0, ch_us. cbn. lia.
-      + eapply Forall_impl; [|exact ALLZ]. intros c ->. unfold plain, is_space, ch_0, ch_us, ch_minus, ch_plus. cbn. lia.
-      + intros a1 a2 tt Eq. inversion Eq; subst. reflexivity.
+      * rewrite strip_us_cons_keep by assumption. rewrite SU.
+        rewrite !eval_digits_fold, !fold_zeros by assumption. rewrite !Z.mul_0_l. reflexivity.
+      * eapply Forall_impl; [|exact ALLZ]. intros c ->. unfold dig_ok, digit_val, ch_0, ch_us. cbn. lia.
+      * eapply Forall_impl; [|exact ALLZ]. intros c ->. unfold plain, is_space, ch_0, ch_us, ch_minus, ch_plus. cbn. lia.
+      * intros a1 a2 tt Eq. inversion Eq; subst. reflexivity.
   - (* decimal, first digit 1-9 *)
     destruct (is_nonzero_dec c0 && us_digits is_dec t0) eqn:G; [|discriminate]. inversion L; subst b d; clear L.
     apply andb_prop in G. destruct G as [G0 Gd].
@@ -312,4 +312,355 @@ Proof.
           unfold is_nonzero_dec, ch_minus in *. lia. }
       destruct (Z.eqb_spec d ch_minus) as [E|_]; [contradiction|].
       rewrite Hr. reflexivity.
+Qed.
+
+(* the legacy "0NNN" form the lexicon still admits is read as octal *)
+Theorem str_to_number_legacy_octal s :
+  legacy_octal s = true -> str_to_number s = Some (eval_digits 8 s).
+Proof.
+  unfold legacy_octal. destruct s as [|c0 [|c1 t]]; try discriminate.
+  intros H. apply andb_prop in H. destruct H as [H0 H1].
+  assert (c0 = ch_0) by lia. subst c0.
+  assert (F : Forall (fun c => is_octd c = true) (ch_0 :: c1 :: t)).
+  { constructor; [reflexivity|]. apply Forall_forall. intros x Hx. apply (proj1 (forallb_forall _ _) H1 x Hx). }
+  inversion F as [|? ? _ F1]; subst. inversion F1 as [|? ? Hc1 _]; subst.
+  apply is_octd_ok in Hc1. destruct Hc1 as (_ & _ & _ & _ & Ho & Hx & Hb).
+  unfold str_to_number. change (ch_0 =? ch_minus) with false. cbn iota.
+  change (ch_0 =? ch_0) with true. cbn iota. rewrite Hx, Ho, Hb.
+  rewrite py_int_pow2_digits; try reflexivity; try lia; try congruence.
+  - eapply Forall_impl; [|exact F]. intros c Hc. apply is_octd_ok in Hc. tauto.
+  - eapply Forall_impl; [|exact F]. intros c Hc. apply is_octd_ok in Hc. unfold plain, dig_ok in *. tauto.
+  - intros a1 a2 tt Eq. inversion Eq; subst. rewrite Ho.
+    change (8 =? 16) with false. change (8 =? 2) with false. cbn. reflexivity.
+Qed.
+
+(* the raw token with an underscore directly after the base prefix is NOT accepted by
+   str_to_number (int("_1f", 16) raises); harmless because the scanner strips underscores *)
+Lemma str_to_number_raw_prefix_underscore :
+  python_int_literal [48; 120; 95; 49; 102] = Some 31 /\ str_to_number [48; 120; 95; 49; 102] = None
+  /\ str_to_number (strip_us [48; 120; 95; 49; 102]) = Some 31.
+Proof. vm_compute. auto. Qed.
+
+(* ------------------------------------------------------------------ *)
+(* B. emission of integer constants                                    *)
+(* ------------------------------------------------------------------ *)
+
+Lemma digit_val_char d : 0 <= d < 36 -> digit_val (digit_char d) = d.
+Proof.
+  intros H. unfold digit_char. destruct (Z.ltb_spec d 10); unfold digit_val;
+  repeat match goal with |- context [if ?b then _ else _] => destruct b eqn:? end; lia.
+Qed.
+
+Lemma digit_char_ok b d : 2 <= b <= 36 -> 0 <= d < b ->
+  dig_ok b (digit_char d) /\ plain (digit_char d)
+  /\ (b <= 16 -> is_l (digit_char d) = false /\ is_x (digit_char d) = false /\ is_o (digit_char d) = false)
+  /\ (b <= 10 -> is_b (digit_char d) = false).
+Proof.
+  intros Hb Hd. unfold dig_ok. rewrite digit_val_char by lia.
+  unfold plain, digit_char, is_space, is_l, is_x, is_o, is_b, ch_us, ch_minus, ch_plus.
+  destruct (Z.ltb_spec d 10); lia.
+Qed.
+
+Lemma div_eucl_eq n b : Z.div_eucl n b = (n / b, n mod b).
+Proof. unfold Z.div, Z.modulo. destruct (Z.div_eucl n b). reflexivity. Qed.
+
+(* value, shape and last digit of the digit list, least significant first *)
+Lemma digits_rev_spec b : 2 <= b <= 36 -> forall fuel n,
+  0 <= n < 2 ^ Z.of_nat fuel ->
+  fold_left (step b) (rev (digits_rev fuel b n)) 0 = n
+  /\ Forall (fun c => exists d, 0 <= d < b /\ c = digit_char d) (digits_rev fuel b n)
+  /\ (0 < n -> exists l d, digits_rev fuel b n = l ++ [digit_char d] /\ 0 < d < b).
+Proof.
+  intros Hb. induction fuel as [|f IH]; intros n Hn.
+  - cbn in Hn. assert (n = 0) by lia. subst. cbn. repeat split; [constructor|lia].
+  - cbn [digits_rev]. destruct (Z.leb_spec n 0) as [L|G].
+    + assert (n = 0) by lia. subst. cbn. repeat split; [constructor|lia].
+    + rewrite div_eucl_eq.
+      assert (Hq : 0 <= n / b < 2 ^ Z.of_nat f).
+      { rewrite Nat2Z.inj_succ, Z.pow_succ_r in Hn by lia.
+        split; [apply Z.div_pos; lia|].
+        apply Z.div_lt_upper_bound; [lia|]. nia. }
+      destruct (IH (n / b) Hq) as (V & F & Lst).
+      pose proof (Z.mod_pos_bound n b ltac:(lia)) as Hr.
+      repeat split.
+      * cbn [rev]. rewrite fold_left_app. cbn [fold_left]. rewrite V. unfold step.
+        rewrite digit_val_char by lia. pose proof (Z.div_mod n b ltac:(lia)). lia.
+      * constructor; [exists (n mod b); split; [lia|reflexivity]|assumption].
+      * intros _. destruct (Z.eq_dec (n / b) 0) as [E|NE].
+        -- exists [], (n mod b). rewrite E.
+           assert (D0 : forall f', digits_rev f' b 0 = []) by (destruct f'; reflexivity).
+           rewrite D0. split; [reflexivity|].
+           pose proof (Z.div_mod n b ltac:(lia)). lia.
+        -- destruct (Lst ltac:(lia)) as (l & d & El & Hd).
+           exists (digit_char (n mod b) :: l), d. rewrite El. split; [reflexivity|assumption].
+Qed.
+
+Lemma digits_rev_pow2_eq k : 0 < k -> forall fuel n,
+  0 <= n -> digits_rev_pow2 fuel k n = digits_rev fuel (2 ^ k) n.
+Proof.
+  intros Hk. induction fuel as [|f IH]; intros n Hn; [reflexivity|].
+  cbn [digits_rev_pow2 digits_rev]. destruct (n <=? 0); [reflexivity|].
+  rewrite div_eucl_eq, Z.land_ones, Z.shiftr_div_pow2 by lia.
+  rewrite IH; [reflexivity|]. apply Z.div_pos; [lia|]. apply Z.pow_pos_nonneg; lia.
+Qed.
+
+Lemma digit_fuel_ok n : 0 < n -> 0 <= n < 2 ^ Z.of_nat (digit_fuel n).
+Proof.
+  intros H. unfold digit_fuel. rewrite Nat2Z.inj_succ, Z2Nat.id by apply Z.log2_nonneg.
+  pose proof (Z.log2_spec n H). lia.
+Qed.
+
+(* the digit string of n > 0 in base b: evaluates to n, consists of digits of the base,
+   is not empty and does not start with '0' *)
+Lemma to_digits_spec b n : 2 <= b <= 36 -> 0 < n ->
+  eval_digits b (to_digits b n) = n
+  /\ Forall (fun c => exists d, 0 <= d < b /\ c = digit_char d) (to_digits b n)
+  /\ exists d t, to_digits b n = digit_char d :: t /\ 0 < d < b.
+Proof.
+  intros Hb Hn. unfold to_digits.
+  destruct (digits_rev_spec b Hb (digit_fuel n) n (digit_fuel_ok n Hn)) as (V & F & Lst).
+  repeat split.
+  - exact V.
+  - apply Forall_rev. exact F.
+  - destruct (Lst Hn) as (l & d & El & Hd). exists d, (rev l). rewrite El, rev_app_distr. split; [reflexivity|assumption].
+Qed.
+
+Lemma to_digits_pow2_eq k n : 0 < k -> 0 < n -> to_digits_pow2 k n = to_digits (2 ^ k) n.
+Proof. intros. unfold to_digits_pow2, to_digits. rewrite digits_rev_pow2_eq by lia. reflexivity. Qed.
+
+Lemma digits_facts b l : 2 <= b <= 36 ->
+  Forall (fun c => exists d, 0 <= d < b /\ c = digit_char d) l ->
+  Forall (dig_ok b) l /\ Forall plain l.
+Proof.
+  intros Hb F. split; eapply Forall_impl; try exact F; intros c (d & Hd & ->);
+    destruct (digit_char_ok b d Hb Hd) as (A & B & _); assumption.
+Qed.
+
+(* int("-" + s, b) = -int(s, b) when s starts with a plain character *)
+Lemma py_int_minus b c t : plain c ->
+  py_int b (ch_minus :: c :: t) = match py_int b (c :: t) with Some v => Some (- v) | None => None end.
+Proof.
+  intros (Hs & Hm & Hp & Hu). unfold py_int. cbn [drop_space].
+  change (is_space ch_minus) with false. cbn iota. rewrite Hs.
+  change (ch_minus =? ch_minus) with true. cbn [orb]. cbn iota.
+  destruct (Z.eqb_spec c ch_minus) as [E|_]; [contradiction|].
+  destruct (Z.eqb_spec c ch_plus) as [E|_]; [contradiction|]. cbn [orb]. cbn iota.
+  repeat match goal with
+         | |- context [match ?x with _ => _ end] =>
+             lazymatch x with
+             | context [match _ with _ => _ end] => fail
+             | _ => destruct x eqn:?
+             end
+         end; try reflexivity; try congruence.
+Qed.
+
+Lemma strip_L_digits b l : 2 <= b <= 16 -> l <> [] ->
+  Forall (fun c => exists d, 0 <= d < b /\ c = digit_char d) l ->
+  forall pre, strip_L (pre ++ l) = pre ++ l.
+Proof.
+  intros Hb Hne F pre. unfold strip_L.
+  assert (L : last (pre ++ l) 0 = last l 0).
+  { destruct l as [|a l']; [congruence|]. clear. induction pre as [|p pre IH]; [reflexivity|].
+    cbn [app]. rewrite last_cons_ne; [exact IH|]. destruct pre; discriminate. }
+  rewrite L. pose proof (Forall_last _ _ 0 Hne F) as (d & Hd & E). cbn beta in E. rewrite E.
+  destruct (digit_char_ok b d ltac:(lia) Hd) as (_ & _ & H16 & _). destruct (H16 ltac:(lia)) as (Hl & _).
+  rewrite Hl. reflexivity.
+Qed.
+
+(* hex(v) is read back as v, for every integer *)
+Lemma py_hex_roundtrip v : strip_L (py_hex v) = py_hex v /\ str_to_number (py_hex v) = Some v.
+Proof.
+  assert (KEY : forall n, 0 <= n ->
+     let d := if n =? 0 then [ch_0] else to_digits_pow2 4 n in
+     strip_L ([ch_0; 120] ++ d) = [ch_0; 120] ++ d /\
+     strip_L ([ch_minus; ch_0; 120] ++ d) = [ch_minus; ch_0; 120] ++ d /\
+     py_int 16 d = Some n /\ d <> []).
+  { intros n Hn. destruct (Z.eqb_spec n 0) as [->|NZ].
+    - cbn zeta. repeat split; try reflexivity. discriminate.
+    - cbn zeta. rewrite to_digits_pow2_eq by lia. change (2 ^ 4) with 16.
+      destruct (to_digits_spec 16 n ltac:(lia) ltac:(lia)) as (V & F & (d0 & t0 & E & Hd0)).
+      destruct (digits_facts 16 _ ltac:(lia) F) as (FD & FP).
+      assert (NE : to_digits 16 n <> []) by (rewrite E; discriminate).
+      split; [apply (strip_L_digits 16); try lia; assumption|].
+      split; [apply (strip_L_digits 16 _ ltac:(lia) NE F [ch_minus; ch_0; 120])|].
+      split; [|assumption].
+      rewrite py_int_pow2_digits; try reflexivity; try lia; try assumption.
+      + rewrite V. reflexivity.
+      + intros a1 a2 tt Eq. rewrite Eq in F. inversion F as [|? ? _ F2]; subst. inversion F2 as [|? ? (d2 & Hd2 & E2) _]; subst.
+        destruct (digit_char_ok 16 d2 ltac:(lia) Hd2) as (_ & _ & H16 & _). destruct (H16 ltac:(lia)) as (_ & Hx & _).
+        rewrite Hx. change (16 =? 8) with false. change (16 =? 2) with false. cbn. apply andb_false_r. }
+  unfold py_hex. destruct (Z.ltb_spec v 0) as [Neg|Pos].
+  - destruct (KEY (Z.abs v) ltac:(lia)) as (_ & S2 & P & NE). cbn zeta in *.
+    replace (Z.abs v =? 0) with (v =? 0) in * by lia.
+    split; [exact S2|].
+    unfold str_to_number. cbn [app]. change (ch_minus =? ch_minus) with true. cbn iota.
+    change (ch_0 =? ch_0) with true. cbn iota. change (is_x 120) with true. cbn iota.
+    destruct (KEY (Z.abs v) ltac:(lia)) as (S1 & _ & _ & _). cbn zeta in S1.
+    replace (Z.abs v =? 0) with (v =? 0) in * by lia. cbn [app] in S1. rewrite S1. cbn [skipn].
+    rewrite P. f_equal. lia.
+  - destruct (KEY (Z.abs v) ltac:(lia)) as (S1 & _ & P & NE). cbn zeta in *.
+    replace (Z.abs v =? 0) with (v =? 0) in * by lia.
+    split; [exact S1|].
+    unfold str_to_number. cbn [app]. change (ch_0 =? ch_minus) with false. cbn iota.
+    change (ch_0 =? ch_0) with true. cbn iota. change (is_x 120) with true. cbn iota.
+    cbn [app] in S1. rewrite S1. cbn [skipn]. rewrite P. f_equal. lia.
+Qed.
+
+Lemma digits_rev_length b : 2 <= b -> forall fuel k n,
+  0 <= n < b ^ Z.of_nat k -> (length (digits_rev fuel b n) <= k)%nat.
+Proof.
+  intros Hb. induction fuel as [|f IH]; intros k n Hn; [cbn; lia|].
+  cbn [digits_rev]. destruct (Z.leb_spec n 0); [cbn; lia|].
+  rewrite div_eucl_eq. destruct k as [|k]; [cbn in Hn; lia|].
+  cbn [length]. apply le_n_S. apply IH.
+  rewrite Nat2Z.inj_succ, Z.pow_succ_r in Hn by lia.
+  split; [apply Z.div_pos; lia|]. apply Z.div_lt_upper_bound; [lia|]. nia.
+Qed.
+
+Lemma dec_digit_char d : 0 <= d < 10 -> is_dec (digit_char d) = true /\ (0 < d -> is_nonzero_dec (digit_char d) = true).
+Proof. intros H. unfold digit_char, is_dec, is_nonzero_dec. destruct (Z.ltb_spec d 10); lia. Qed.
+
+(* str(v), when it does not raise, is read back as v *)
+Lemma py_str_roundtrip v s : py_str v = Some s -> strip_L s = s /\ str_to_number s = Some v.
+Proof.
+  unfold py_str. destruct (Z.eqb_spec v 0) as [->|NZ].
+  - intros E; inversion E; subst. split; reflexivity.
+  - destruct (Z.leb_spec pow10_limit (Z.abs v)) as [|Lim]; [discriminate|]. intros E.
+    destruct (to_digits_spec 10 (Z.abs v) ltac:(lia) ltac:(lia)) as (V & F & (d0 & t0 & Ed & Hd0)).
+    assert (NE : to_digits 10 (Z.abs v) <> []) by (rewrite Ed; discriminate).
+    assert (Len : Z.of_nat (length (to_digits 10 (Z.abs v))) <= max_str_digits).
+    { unfold to_digits. rewrite rev_length.
+      pose proof (digits_rev_length 10 ltac:(lia) (digit_fuel (Z.abs v)) (Z.to_nat max_str_digits) (Z.abs v)) as B.
+      rewrite Z2Nat.id in B by (unfold max_str_digits; lia). fold pow10_limit in B.
+      specialize (B ltac:(lia)). unfold max_str_digits in *. lia. }
+    assert (P : py_int 0 (to_digits 10 (Z.abs v)) = Some (Z.abs v)).
+    { rewrite (py_int_0_decimal _ (digit_char d0) t0 Ed).
+      - destruct (Z.ltb_spec max_str_digits (Z.of_nat (length (to_digits 10 (Z.abs v))))); [lia|]. rewrite V. reflexivity.
+      - apply dec_digit_char; lia.
+      - rewrite Ed in F. inversion F as [|? ? _ F2]; subst. eapply Forall_impl; [|exact F2].
+        intros c (d & Hd & ->). apply dec_digit_char. lia. }
+    assert (C0 : digit_char d0 <> ch_minus /\ digit_char d0 <> ch_0).
+    { unfold digit_char, ch_minus, ch_0. destruct (Z.ltb_spec d0 10); lia. }
+    destruct (Z.ltb_spec v 0) as [Neg|Pos]; inversion E; subst s; clear E.
+    + split; [apply (strip_L_digits 10 _ ltac:(lia) NE F [ch_minus])|].
+      unfold str_to_number. change (ch_minus =? ch_minus) with true. cbn iota.
+      rewrite Ed in *. destruct (Z.eqb_spec (digit_char d0) ch_0) as [E0|_]; [tauto|].
+      destruct t0; rewrite P; f_equal; lia.
+    + split; [apply (strip_L_digits 10 _ ltac:(lia) NE F [])|].
+      unfold str_to_number. rewrite Ed in *.
+      destruct (Z.eqb_spec (digit_char d0) ch_minus) as [E0|_]; [tauto|].
+      destruct (Z.eqb_spec (digit_char d0) ch_0) as [E0|_]; [tauto|].
+      destruct t0; rewrite P; f_equal; lia.
+Qed.
+
+(* the base-32 text is read back by PyLong_FromString(.., 32) *)
+Lemma to_base32_roundtrip n : py_int 32 (to_base32 n) = Some n.
+Proof.
+  unfold to_base32. destruct (Z.eqb_spec n 0) as [->|NZ]; [reflexivity|].
+  rewrite to_digits_pow2_eq by lia. change (2 ^ 5) with 32.
+  destruct (to_digits_spec 32 (Z.abs n) ltac:(lia) ltac:(lia)) as (V & F & (d0 & t0 & Ed & Hd0)).
+  destruct (digits_facts 32 _ ltac:(lia) F) as (FD & FP).
+  assert (P : py_int 32 (to_digits 32 (Z.abs n)) = Some (Z.abs n)).
+  { rewrite py_int_pow2_digits; try reflexivity; try lia; try assumption.
+    - rewrite V. reflexivity.
+    - rewrite Ed. discriminate. }
+  destruct (Z.ltb_spec n 0) as [Neg|Pos]; cbn [app].
+  - rewrite Ed in *. inversion FP as [|? ? Pl _]; subst. rewrite py_int_minus by assumption. rewrite P. f_equal. lia.
+  - rewrite P. f_equal. lia.
+Qed.
+
+Lemma bit_length_bound n : Z.abs n < 2 ^ bit_length n /\ 0 <= bit_length n.
+Proof.
+  unfold bit_length. destruct (Z.eqb_spec n 0) as [->|NZ]; [cbn; lia|].
+  pose proof (Z.log2_spec (Z.abs n) ltac:(lia)). pose proof (Z.log2_nonneg (Z.abs n)). lia.
+Qed.
+
+(* a small constant fits the C array element it is put in, whatever size class was reached *)
+Lemma c_array_fits cur n : bit_length n <= 63 ->
+  wrap (8 * c_array_bytes cur n) true n = n.
+Proof.
+  intros H. destruct (bit_length_bound n) as [B B0].
+  set (need := (bit_length n + 8) / 8).
+  assert (Hneed : 8 * need >= bit_length n + 1 /\ 1 <= need <= 8).
+  { pose proof (Z.div_mod (bit_length n + 8) 8 ltac:(lia)) as DM.
+    pose proof (Z.mod_pos_bound (bit_length n + 8) 8 ltac:(lia)) as MB. fold need in DM. lia. }
+  assert (Hb : need <= c_array_bytes cur n).
+  { unfold c_array_bytes. fold need. unfold next_size.
+    destruct (Z.leb_spec need cur); [lia|]. destruct (Z.leb_spec need 2); [lia|]. destruct (Z.leb_spec need 4); lia. }
+  apply wrap_id; [lia|]. unfold in_range, min_int, max_int.
+  assert (2 ^ bit_length n <= 2 ^ (8 * c_array_bytes cur n - 1)) by (apply Z.pow_le_mono_r; lia).
+  lia.
+Qed.
+
+(* Theorem: the text chosen for a Python int constant, pooled, emitted (C array element or base-32
+   string) and decoded by the module init code gives back the value -- for every integer with
+   the repaired formatter choice, and for every integer above -10^4300 with the current one *)
+Theorem int_emission_roundtrip abs_threshold cur v :
+  abs_threshold = true \/ - pow10_limit < v ->
+  int_emission abs_threshold cur v = Some v.
+Proof.
+  intros H. unfold int_emission, int_const_text.
+  assert (TXT : exists t, (if (if abs_threshold then Z.abs v else v) >? 10 ^ 13 then Some (strip_L (py_hex v))
+                 else match py_str v with Some s => Some (strip_L s) | None => None end) = Some t
+                 /\ str_to_number t = Some v).
+  { destruct (Z.gtb_spec (if abs_threshold then Z.abs v else v) (10 ^ 13)) as [G|L].
+    - destruct (py_hex_roundtrip v) as (S & R). exists (py_hex v). rewrite S. auto.
+    - destruct (py_str v) as [s|] eqn:PS.
+      + destruct (py_str_roundtrip v s PS) as (S & R). exists s. rewrite S. auto.
+      + exfalso. unfold py_str in PS. destruct (v =? 0); [discriminate|].
+        destruct (Z.leb_spec pow10_limit (Z.abs v)) as [Big|]; [|destruct (v <? 0); discriminate].
+        assert (10 ^ 13 < pow10_limit) by (vm_compute; reflexivity).
+        destruct abs_threshold; [lia|]. destruct H as [?|Hv]; [discriminate|lia]. }
+  destruct TXT as (t & -> & R). unfold emit_num. rewrite R.
+  destruct (Z.leb_spec (bit_length v) 63) as [Small|Large]; cbn [decode_emitted].
+  - rewrite c_array_fits by assumption. reflexivity.
+  - apply to_base32_roundtrip.
+Qed.
+
+(* ... and the current formatter choice does fail below that bound (finding) *)
+Theorem int_emission_current_refuted : exists v, int_emission false 1 v = None.
+Proof. exists (- pow10_limit). vm_compute. reflexivity. Qed.
+
+(* the pool key of an int constant determines its value *)
+Theorem int_const_key_injective a v1 l1 v2 l2 k :
+  int_const_key a v1 l1 = Some k -> int_const_key a v2 l2 = Some k -> v1 = v2 /\ l1 = l2.
+Proof.
+  unfold int_const_key.
+  assert (R : forall v t, int_const_text a v = Some t -> str_to_number t = Some v).
+  { intros v t. unfold int_const_text. destruct (_ >? _).
+    - intros E; inversion E; subst. destruct (py_hex_roundtrip v) as (S & R). rewrite S. exact R.
+    - destruct (py_str v) as [s|] eqn:PS; [|discriminate]. intros E; inversion E; subst.
+      destruct (py_str_roundtrip v s PS) as (S & R). rewrite S. exact R. }
+  destruct (int_const_text a v1) as [t1|] eqn:E1; [|discriminate].
+  destruct (int_const_text a v2) as [t2|] eqn:E2; [|discriminate].
+  intros K1 K2. inversion K1; subst k. inversion K2; subst.
+  pose proof (R v1 t1 E1) as R1. pose proof (R v2 t1 E2) as R2. rewrite R1 in R2. inversion R2. auto.
+Qed.
+
+(* unop_node: the text of the negated literal reads back as the negated value *)
+Theorem negated_literal_roundtrip repaired s v :
+  str_to_number s = Some v -> repaired = true \/ Z.abs v < pow10_limit ->
+  exists t, negated_literal_text repaired s = Some t /\ str_to_number t = Some (- v).
+Proof.
+  intros R H. unfold negated_literal_text. rewrite R.
+  assert (PSok : Z.abs v < pow10_limit -> exists s', py_str (- v) = Some s').
+  { intros B. unfold py_str. destruct (- v =? 0); [eauto|].
+    destruct (Z.leb_spec pow10_limit (Z.abs (- v))); [lia|]. eauto. }
+  destruct repaired.
+  - unfold int_const_text. destruct (Z.gtb_spec (Z.abs (- v)) (10 ^ 13)) as [G|L].
+    + destruct (py_hex_roundtrip (- v)) as (S & R'). exists (py_hex (- v)). rewrite S. auto.
+    + assert (10 ^ 13 < pow10_limit) by (vm_compute; reflexivity).
+      destruct (PSok ltac:(lia)) as (s' & PS). rewrite PS.
+      destruct (py_str_roundtrip _ s' PS) as (S & R'). exists s'. rewrite S. auto.
+  - destruct H as [?|Hv]; [discriminate|].
+    destruct (PSok Hv) as (s' & PS). rewrite PS.
+    destruct (py_str_roundtrip _ s' PS) as (S & R'). exists s'. auto.
+Qed.
+
+Theorem negated_literal_current_refuted :
+  exists s v, str_to_number s = Some v /\ negated_literal_text false s = None.
+Proof.
+  exists (py_hex pow10_limit), pow10_limit. split.
+  - apply py_hex_roundtrip.
+  - unfold negated_literal_text. rewrite (proj2 (py_hex_roundtrip pow10_limit)). vm_compute. reflexivity.
 Qed.
